@@ -5,6 +5,7 @@ import (
 	"go/constant"
 	"go/token"
 	"go/types"
+	"sort"
 	"strings"
 
 	"golang.org/x/tools/go/ssa"
@@ -48,6 +49,7 @@ func runSmall(c *core.Ctx) []core.Obligation {
 	smallEmbeddedPointerAccessors(c, b)
 	smallMarshalerOutputCompacted(c, b)
 	smallTimeCanFail(c, b)
+	smallThriftFlagMask(c, b)
 	smallStringOptionNull(c, b)
 	smallStringOptionMarshaler(c, b)
 	return b.out
@@ -966,6 +968,52 @@ func smallRawVarintByte(c *core.Ctx, b *ob) {
 	}
 	if n == 0 {
 		b.addP(props, core.Discharged, "raw-varint-byte:none", "proto", "no integer is written as a raw byte outside encodeVarint: every length and tag goes through the varint encoder")
+	}
+}
+
+// S24 — thrift's container decoders pass the per-call flags on to their element decoders after
+// masking the field-specific bits off with flags.only(decodeFlags). What survives must include
+// strict (type mismatches below a list or map element are reported in strict mode) and the
+// protocol features; every such mask in the decoders is the same constant.
+func smallThriftFlagMask(c *core.Ctx, b *ob) {
+	props := []string{"C08", "C04"}
+	key := "thrift:element-flags-keep-strict"
+	strictV, ok1 := thriftConst(c, "strict")
+	protoV, ok2 := thriftConst(c, "protocolFlags")
+	if !ok1 || !ok2 {
+		b.addP(props, core.Undecided, key, "-", "thrift.strict / thrift.protocolFlags not found")
+		return
+	}
+	n := 0
+	var bads []string
+	for _, fn := range c.RepoFunctions() {
+		name := shortName(fn)
+		if fn.Blocks == nil || !strings.HasPrefix(name, "thrift.") || !(strings.Contains(name, "decode") || strings.Contains(name, "Decode")) {
+			continue
+		}
+		for _, ci := range callsIn(fn) {
+			f := staticCallee(ci.Common())
+			if f == nil || f.Name() != "only" || len(ci.Common().Args) != 2 {
+				continue
+			}
+			k, isK := constInt(ci.Common().Args[1])
+			if !isK {
+				continue
+			}
+			n++
+			if k&strictV == 0 || k&protoV != protoV {
+				bads = append(bads, fmt.Sprintf("%s keeps only %#x at %s", name, k, c.InstrPos(ci)))
+			}
+		}
+	}
+	switch {
+	case n == 0:
+		b.addP(props, core.Undecided, key, "-", "no flags.only(mask) call found in thrift's decoders")
+	case len(bads) > 0:
+		sort.Strings(bads)
+		b.addP(props, core.Violation, key, "-", "the flags handed to element decoders lose strict or a protocol feature ("+strings.Join(bads, "; ")+fmt.Sprintf("; strict=%#x, protocolFlags=%#x): in strict mode a type mismatch below that container is silently accepted, leaving zero values", strictV, protoV))
+	default:
+		b.addP(props, core.Discharged, key, "-", fmt.Sprintf("%d masks, each keeps strict and the protocol features", n))
 	}
 }
 
